@@ -190,6 +190,7 @@ func (g *c15Gen) text() c15Text {
 		n = 2 + g.n(2)
 	}
 	havePragma := false
+	bait := false // a lexically tricky statement has been emitted earlier in this text
 	for i := 0; i < n; i++ {
 		if i > 0 {
 			sb.WriteString(g.of(";", "; ", ";\n", " ;/* c */ "))
